@@ -1,5 +1,6 @@
 import SlocModel.Driver.Proto
 import SlocModel.Driver.Threshold
+import SlocModel.Driver.Counter
 open SlocModel.Driver
 
 def dispatch (line : String) : String :=
@@ -9,6 +10,11 @@ def dispatch (line : String) : String :=
       match op with
       | "verdict" => handleVerdict args
       | "pct" => handlePct args
+      | "count" => handleCount args
+      | "find-start" => handleFindStart args
+      | "has-end" => handleHasEnd args
+      | "nesting" => handleNesting args
+      | "langs" => handleLangs args
       | _ => some "bad-op"
     r.getD "bad-args"
   | [] => "bad-op"
